@@ -1340,6 +1340,16 @@ PREFIX(_intersect_rect) (region_type_t *dest,
     region.extents.x2 = x + width;
     region.extents.y2 = y + height;
 
+    if (!GOOD_RECT (&region.extents))
+    {
+	/* A rectangle without points: intersect with the empty region
+	 * rather than with a malformed single-rectangle one.
+	 */
+	region.extents.x2 = region.extents.x1;
+	region.extents.y2 = region.extents.y1;
+	region.data = pixman_region_empty_data;
+    }
+
     return PREFIX(_intersect) (dest, source, &region);
 }
 
@@ -2033,7 +2043,21 @@ PREFIX (_inverse) (region_type_t *new_reg,  /* Destination region */
 			    * bounding box */
     GOOD (reg1);
     GOOD (new_reg);
-    
+
+    /* nothing lies inside a bounding box without points */
+    if (!GOOD_RECT (inv_rect))
+    {
+        if (PIXREGION_NAR (reg1))
+	    return pixman_break (new_reg);
+
+        FREE_DATA (new_reg);
+        new_reg->extents.x1 = new_reg->extents.x2 = inv_rect->x1;
+        new_reg->extents.y1 = new_reg->extents.y2 = inv_rect->y1;
+        new_reg->data = pixman_region_empty_data;
+
+        return TRUE;
+    }
+
     /* check for trivial rejects */
     if (PIXREGION_NIL (reg1) || !EXTENTCHECK (inv_rect, &reg1->extents))
     {
